@@ -65,7 +65,25 @@ def gen_plan(seed, i, tier):
 
 
 def jobs(tier, seed, pool):
-    return [{'plan': gen_plan(seed, i, tier), 'meta': {}} for i in range(RUNS[tier])]
+    out = [{'plan': gen_plan(seed, i, tier), 'meta': {}} for i in range(RUNS[tier])]
+    # sweep: every collision / constraint / controller / interpolator type (the graphs the sorter treats specially) x 4 versions,
+    # sorted and default-saved once
+    special = [t for t in synth.block_types() if (t.startswith('bhk') or 'Controller' in t or 'Interpolator' in t or 'Collision' in t or 'Sequence' in t)
+               and t not in synth.BUILDER_ONLY]
+    for v in ['FO3', 'SK', 'SSE', 'FO4']:
+        for t in special:
+            for k in range(1 if tier == 'quick' else 4):
+                r = Rng(seed, PROP, 'sweep', v, t, k)
+                out.append({'plan': {'property': PROP, 'profile': 'sortprune', 'init': synth.synth_init(v, t, r.below(1 << 20), k=3, helpers=8),
+                                     'steps': [{'op': 'PrettySort'}, {'op': 'SaveDefault'}], 'timeout_s': 90}, 'meta': {}})
+                # the same type hung type-correctly below a shape of an API-built model (reachable from the root, so that pruning keeps it),
+                # stored in another block order so that the sort has something to move
+                sh = hist.shape_spec(r, v, 'quick', name='s0')
+                sh['nv'], sh['nt'] = r.range(4, 30), r.range(2, 30)
+                init = {'builder': {'version': v, 'salt': r.below(1 << 30), 'nodes': r.below(3), 'shapes': [sh]},
+                        'attach': [{'type': t, 'seed': r.below(1 << 20), 'shape': 0, 'wide_pointers': True}], 'layout': [r.below(1 << 30) for _ in range(2)]}
+                out.append({'plan': {'property': PROP, 'profile': 'sortprune', 'init': init, 'steps': [{'op': 'PrettySort'}, {'op': 'SaveDefault'}], 'timeout_s': 90}, 'meta': {}})
+    return out
 
 
 account = hist.account
